@@ -77,6 +77,7 @@ type Exec struct {
 	externSites  int
 	sym          *symSession
 	unitFType    *Contract
+	assumeSafe   bool
 	tailNext     bool
 	retGuards    []*Term
 }
@@ -125,6 +126,15 @@ var safetyProps = []string{"C01"}
 
 func (x *Exec) safety(kind, detail string, cond *Term, txt string) {
 	props := safetyProps
+	if x.assumeSafe {
+		// attr assumesafe: the unit is verified for its frame / postconditions only; the absence of run-time panics in
+		// its body is assumed (listed in the evidence), not proved
+		if !isLitTrue(cond) {
+			x.assumeHere(cond)
+			x.assumed["ASSUMESAFE "+x.unitName] = true
+		}
+		return
+	}
 	x.oblige(kind, detail, props, cond, txt)
 }
 
